@@ -34,7 +34,7 @@ def nf_function(it, extra_guards=(), int_like=()):
     cuts, lits = mc.char_cuts([body])
     has_char_param = any((p.get("ty") or "").replace(" ", "") == "char" for p in it["sig"]["params"] if p.get("name") != "self")
     classes = mc.classes_from_cuts(cuts) if has_char_param else [(0, 0x10FFFF)]
-    cfg = Config(acquire={}, primitives=set(), inline={}, guards=set(extra_guards), samples=[], accessors=set(), full_call_text=True)
+    cfg = Config(acquire={}, primitives=set(), inline={}, guards=set(extra_guards), samples=[], accessors=set(), full_call_text=True, generic_loops=True)
     cfg.objects = ("self",)
     try:
         cells = tabulate_generic(it, cfg, classes, has_char_param)
